@@ -29,6 +29,7 @@ type Config struct {
 	Fallback    []string
 	MaxViolations int
 	EagerChecks bool
+	Profile     bool
 	FallbackTimeoutMs int
 	Progress    int
 }
@@ -138,6 +139,7 @@ type Machine struct {
 	obligations []obligation
 	pcAll    *sym.Term
 	FallbackQueries int
+	QuerySites map[string]int
 }
 
 func NewMachine(prog *ssa.Program, ctx *sym.Ctx, solver *sym.Solver, cfg Config) *Machine {
@@ -194,6 +196,13 @@ func (m *Machine) query(extra *sym.Term) (sym.Result, *sym.Model) {
 	asserts := make([]*sym.Term, 0, len(m.pc)+1)
 	asserts = append(asserts, m.pc...)
 	asserts = append(asserts, extra)
+	if m.Cfg.Profile {
+		pos, _, _ := m.curPos()
+		if m.QuerySites == nil {
+			m.QuerySites = map[string]int{}
+		}
+		m.QuerySites[pos]++
+	}
 	res, md := m.solver.Check(m.pc, extra, true)
 	if res == sym.Unknown && len(m.solver.Errors) == 0 {
 		// portfolio: retry the query on the other back ends before giving up
